@@ -60,7 +60,7 @@ type gen struct {
 // leave it to the behaviour samples (url_samples / fix_samples, obligations in C19/GenOk.v)
 // to show that the code still behaves like it.
 func (g *gen) soft(name, canonical, format string, a ...interface{}) {
-	msg := strings.ReplaceAll(fmt.Sprintf(format, a...), "*)", "* )")
+	msg := strings.ReplaceAll(strings.ReplaceAll(fmt.Sprintf(format, a...), "*)", "* )"), "(*", "( *")
 	fmt.Fprintf(&g.b, "(* %s: syntax not recognised (%s): canonical definition, tied by sampled behaviour *)\n%s\n", name, msg, canonical)
 	g.ties[name] = "sampled"
 	g.sampled = append(g.sampled, name)
@@ -73,7 +73,7 @@ func (g *gen) fail(name, format string, a ...interface{}) {
 		g.soft(name, c, format, a...)
 		return
 	}
-	msg := strings.ReplaceAll(fmt.Sprintf(format, a...), "*)", "* )")
+	msg := strings.ReplaceAll(strings.ReplaceAll(fmt.Sprintf(format, a...), "*)", "* )"), "(*", "( *")
 	g.errs = append(g.errs, name+": "+msg)
 	fmt.Fprintf(&g.b, "(* UNTRANSLATABLE %s: %s *)\n", name, msg)
 }
